@@ -34,6 +34,7 @@ type Snap struct {
 	Certs       map[string]ctypes.Certificate
 	CertKeys    map[string][]byte
 	Bal         map[string]int64 // bech32 -> uakt
+	BalX        map[string]int64 // bech32 + "/" + denom -> amount, for every other denomination
 	Supply      int64
 	Raw         map[string][]byte // store + "\x00" + key -> value
 	Errors      []string          // decoding problems (key/value disagreement etc.)
@@ -62,7 +63,7 @@ func Decode(d *Dump) *Snap {
 		Accounts: map[string]etypes.Account{}, Payments: map[string]etypes.Payment{},
 		Providers: map[string]ptypes.Provider{}, Audits: map[string]atypes.Provider{},
 		Certs: map[string]ctypes.Certificate{}, CertKeys: map[string][]byte{},
-		Bal: map[string]int64{}, Raw: map[string][]byte{},
+		Bal: map[string]int64{}, BalX: map[string]int64{}, Raw: map[string][]byte{},
 	}
 	for _, kv := range d.KVs {
 		s.Raw[rawKey(kv.Store, kv.Key)] = kv.Val
@@ -119,7 +120,7 @@ func Decode(d *Dump) *Snap {
 				if c.Denom == denom {
 					s.Bal[addr] = c.Amount.Int64()
 				} else {
-					s.errf("unexpected denom %s", c.Denom)
+					s.BalX[addr+"/"+c.Denom] = c.Amount.Int64()
 				}
 			}
 		}
